@@ -33,6 +33,7 @@ def dispatch (st : DState) (l : Line) : Option (DState × List String × Option 
   | some "c03" => (DriverC03.handle l).map (fun a => (st, a, none))
   | some "c02" => (DriverC01.handle st.c01 l).map (fun (s, a, n) => ({ st with c01 := s }, a, n))
   | some "c04" => (DriverC01.handle st.c01 l).map (fun (s, a, n) => ({ st with c01 := s }, a, n))
+  | some "c05" => (DriverC01.handle st.c01 l).map (fun (s, a, n) => ({ st with c01 := s }, a, n))
   | some "c06" => (DriverC01.handle st.c01 l).map (fun (s, a, n) => ({ st with c01 := s }, a, n))
   | some "c01" => (DriverC01.handle st.c01 l).map (fun (s, a, n) => ({ st with c01 := s }, a, n))
   | some "c08" => (DriverC08.handle st.c08 l).map (fun (s, a, n) => ({ st with c08 := s }, a, n))
